@@ -28,8 +28,9 @@ type WorkerPool struct {
 	// ShutdownComplete is a WaitGroup that is used to wait for the WorkerPool to shutdown.
 	ShutdownComplete sync.WaitGroup
 
-	// isRunning indicates if the WorkerPool is running.
-	isRunning bool
+	// isRunning indicates if the WorkerPool is running (it is only modified while holding the mutex, but can be read
+	// without it: the dispatcher and the tasks of a previous run need to read it while Start waits for them to finish).
+	isRunning atomic.Bool
 
 	// dispatcherChan is the channel that is used to dispatch tasks to the workers.
 	dispatcherChan chan *Task
@@ -71,10 +72,10 @@ func (w *WorkerPool) Start() *WorkerPool {
 	w.mutex.Lock()
 	defer w.mutex.Unlock()
 
-	if !w.isRunning {
+	if !w.isRunning.Load() {
 		w.ShutdownComplete.Wait()
 
-		w.isRunning = true
+		w.isRunning.Store(true)
 
 		w.startDispatcher()
 		w.startWorkers()
@@ -141,10 +142,7 @@ func (w *WorkerPool) DebounceFunc() (debounce func(workerFunc func(), optStackTr
 
 // IsRunning returns true if the WorkerPool is running.
 func (w *WorkerPool) IsRunning() bool {
-	w.mutex.RLock()
-	defer w.mutex.RUnlock()
-
-	return w.isRunning
+	return w.isRunning.Load()
 }
 
 // WorkerCount returns the number of workers that are used to execute tasks.
@@ -167,8 +165,8 @@ func (w *WorkerPool) shutdown() (wasRunning bool) {
 	w.mutex.Lock()
 	defer w.mutex.Unlock()
 
-	if wasRunning = w.isRunning; wasRunning {
-		w.isRunning = false
+	if wasRunning = w.isRunning.Load(); wasRunning {
+		w.isRunning.Store(false)
 
 		for range w.workerCount {
 			w.shutdownSignal <- struct{}{}
